@@ -226,7 +226,7 @@ pub fn run(ctx: &Ctx) -> (Outcome, String, Option<bool>) {
     out.absorb(o);
 
     // (c) instruction lists with representable operands
-    let cases = ctx.scale(6_000, 120_000);
+    let cases = ctx.scale(40_000, 400_000);
     let o = run_sharded(
         ctx,
         "ops-roundtrip",
@@ -246,7 +246,7 @@ pub fn run(ctx: &Ctx) -> (Outcome, String, Option<bool>) {
     let o = run_sharded(
         ctx,
         "bytes-random-mutated",
-        ctx.scale(8_000, 150_000),
+        ctx.scale(40_000, 400_000),
         || {
             prop_oneof![
                 2 => proptest::collection::vec(any::<u8>(), 0..64),
